@@ -239,3 +239,121 @@ proof fn lemma_block_push(b: Seq<Stmt>, s: Stmt, w: int, p: spec_fn(int) -> bool
         if i < b.len() { assert(b.push(s)[i] == b[i]); }
     }
 }
+
+impl<'a> HeaderParser<'a> {
+    /// the header lexer reads the same text, and the line counter counts the header's line breaks consumed so far
+    spec fn hinv(&self) -> bool {
+        &&& self.iter.source() == self.input
+        &&& 0 <= self.iter.hpos()
+        &&& self.iter.hall().len() + 1 < usize::MAX
+        // C19: lines are counted from 1, one per line break
+        &&& self.line == 1 + count_heol(self.iter.hall(), self.iter.hpos()) // [C19.header.counts-eol]
+        &&& self.line <= 1 + self.iter.hpos()
+    }
+    spec fn hframe(&self, o: &Self) -> bool {
+        self.input == o.input && self.iter.hall() == o.iter.hall() && self.iter.hpos() >= o.iter.hpos()
+    }
+}
+
+/// header names are pairwise distinct
+spec fn hdr_distinct(s: Seq<String>) -> bool {
+    forall|i: int, j: int| 0 <= i < j < s.len() ==> (#[trigger] s[i])@ != (#[trigger] s[j])@
+}
+
+/// (type anchor for `let name = self.iter.slice().into();`, whose type rustc infers only later)
+spec fn sv(s: String) -> Seq<char> { s@ }
+
+// ---- Parser::finish (C15: the recorded tables leave the parser in an order that does not depend on hashing) ----
+
+/// es lists every entry of m exactly once
+spec fn entries_of<K, V>(m: Map<K, V>, es: Seq<(K, V)>) -> bool {
+    &&& forall|i: int| 0 <= i < es.len() ==> m.contains_key((#[trigger] es[i]).0) && m[es[i].0] == es[i].1
+    &&& forall|k: K| #[trigger] m.contains_key(k) ==> exists|i: int| 0 <= i < es.len() && (#[trigger] es[i]).0 == k
+    &&& forall|i: int, j: int| 0 <= i < j < es.len() ==> (#[trigger] es[i]).0 != (#[trigger] es[j]).0
+}
+
+// N7 [A-std]: `m.into_iter().map(f).collect::<Vec<_>>()` on a HashMap: f applied to every entry once, in an unspecified order.
+// The body IS the original chain.
+#[verifier::external_body]
+fn verif_map_entries<K, V, T, F: FnMut((K, V)) -> T>(m: HashMap<K, V>, f: F) -> (r: Vec<T>)
+    requires forall|kv: (K, V)| call_requires(f, (kv,)),
+    ensures
+        exists|es: Seq<(K, V)>| #[trigger] entries_of(m@, es) && r@.len() == es.len()
+            && forall|i: int| 0 <= i < es.len() ==> call_ensures(f, (es[i],), #[trigger] r@[i]),
+{
+    m.into_iter().map(f).collect::<Vec<_>>()
+}
+
+// [A-std] slice::sort_by: a permutation in which no element is greater than a later one according to f
+pub assume_specification<T, F: FnMut(&T, &T) -> core::cmp::Ordering>[ <[T]>::sort_by ](v: &mut [T], f: F)
+    requires forall|a: &T, b: &T| call_requires(f, (a, b)),
+    ensures final(v)@.to_multiset() == old(v)@.to_multiset(),
+        forall|i: int, j: int| #![trigger final(v)@[i], final(v)@[j]] 0 <= i < j < final(v)@.len()
+            ==> exists|o: core::cmp::Ordering| #[trigger] call_ensures(f, (&final(v)@[i], &final(v)@[j]), o) && o != core::cmp::Ordering::Greater;
+
+/// the list holds exactly the entries of the table (names by contents)
+spec fn listed<V>(m: Map<&str, V>, l: Seq<(String, V)>) -> bool {
+    &&& forall|i: int| 0 <= i < l.len() ==> has_name(m, (#[trigger] l[i]).0@) && m[str_of(l[i].0@)] == l[i].1
+    &&& forall|k: &str| #[trigger] m.contains_key(k) ==> exists|i: int| 0 <= i < l.len() && (#[trigger] l[i]).0@ == k@
+}
+spec fn listed_vs(m: Map<&str, (core::ops::Range<usize>, Expr)>, l: Seq<(VirtualSignal, core::ops::Range<usize>)>) -> bool {
+    &&& forall|i: int| 0 <= i < l.len() ==> has_name(m, (#[trigger] l[i]).0.name@) && m[str_of(l[i].0.name@)] == (l[i].1, l[i].0.expr)
+    &&& forall|k: &str| #[trigger] m.contains_key(k) ==> exists|i: int| 0 <= i < l.len() && (#[trigger] l[i]).0.name@ == k@
+}
+/// C15: ordered by where in the text the entry was recorded
+spec fn sorted_by_start<T>(l: Seq<(T, core::ops::Range<usize>)>) -> bool {
+    forall|i: int, j: int| 0 <= i < j < l.len() ==> (#[trigger] l[i]).1.start <= (#[trigger] l[j]).1.start
+}
+
+proof fn lemma_perm_index<T>(a: Seq<T>, b: Seq<T>, i: int) -> (j: int)
+    requires a.to_multiset() == b.to_multiset(), 0 <= i < a.len()
+    ensures 0 <= j < b.len() && b[j] == a[i]
+{
+    broadcast use vstd::seq_lib::group_to_multiset_ensures;
+    assert(a.contains(a[i]));
+    assert(a.to_multiset().count(a[i]) > 0);
+    assert(b.contains(a[i]));
+    choose|j: int| 0 <= j < b.len() && b[j] == a[i]
+}
+
+proof fn lemma_listed<V>(m: Map<&str, V>, es: Seq<(&str, V)>, l0: Seq<(String, V)>, l: Seq<(String, V)>)
+    requires
+        entries_of(m, es), l0.len() == es.len(),
+        forall|i: int| 0 <= i < es.len() ==> (#[trigger] l0[i]).0@ == es[i].0@ && l0[i].1 == es[i].1,
+        l0.to_multiset() == l.to_multiset(),
+    ensures listed(m, l)
+{
+    axiom_str_key_model();
+    assert forall|i: int| 0 <= i < l.len() implies has_name(m, (#[trigger] l[i]).0@) && m[str_of(l[i].0@)] == l[i].1 by {
+        let j = lemma_perm_index(l, l0, i);
+        assert(l0[j].0@ == es[j].0@);
+        assert(str_of(es[j].0@) == es[j].0);
+    }
+    assert forall|k: &str| #[trigger] m.contains_key(k) implies exists|i: int| 0 <= i < l.len() && (#[trigger] l[i]).0@ == k@ by {
+        let j = choose|j: int| 0 <= j < es.len() && (#[trigger] es[j]).0 == k;
+        assert(l0[j].0@ == k@);
+        let i = lemma_perm_index(l0, l, j);
+        assert(l[i].0@ == k@);
+    }
+}
+proof fn lemma_listed_vs(m: Map<&str, (core::ops::Range<usize>, Expr)>, es: Seq<(&str, (core::ops::Range<usize>, Expr))>,
+    l0: Seq<(VirtualSignal, core::ops::Range<usize>)>, l: Seq<(VirtualSignal, core::ops::Range<usize>)>)
+    requires
+        entries_of(m, es), l0.len() == es.len(),
+        forall|i: int| 0 <= i < es.len() ==> (#[trigger] l0[i]).0.name@ == es[i].0@ && l0[i].1 == es[i].1.0 && l0[i].0.expr == es[i].1.1,
+        l0.to_multiset() == l.to_multiset(),
+    ensures listed_vs(m, l)
+{
+    axiom_str_key_model();
+    assert forall|i: int| 0 <= i < l.len() implies has_name(m, (#[trigger] l[i]).0.name@) && m[str_of(l[i].0.name@)] == (l[i].1, l[i].0.expr) by {
+        let j = lemma_perm_index(l, l0, i);
+        assert(l0[j].0.name@ == es[j].0@);
+        assert(str_of(es[j].0@) == es[j].0);
+    }
+    assert forall|k: &str| #[trigger] m.contains_key(k) implies exists|i: int| 0 <= i < l.len() && (#[trigger] l[i]).0.name@ == k@ by {
+        let j = choose|j: int| 0 <= j < es.len() && (#[trigger] es[j]).0 == k;
+        assert(l0[j].0.name@ == k@);
+        let i = lemma_perm_index(l0, l, j);
+        assert(l[i].0.name@ == k@);
+    }
+}
